@@ -25,6 +25,10 @@ ASSUMPTIONS = [
 def rnd_e(rng):
     """Euler triple with emphasis on the gimbal region"""
     r = rng.random()
+    if r > 0.92:
+        # nearly aligned already: angles of 1e-10 .. 1e-6 rad (cos of the half angle rounds to 1)
+        e = [rng.choice([0.0, 1, -1]) * 10.0 ** rng.uniform(-10, -6) for _ in range(3)]
+        return e if any(e) else [3e-9, 0.0, 0.0]
     if r < 0.35:
         ry = rng.choice([1, -1]) * (math.pi / 2 - rng.choice([0.0, 1e-12, 1e-9, 1e-7, 1e-5, 1e-4, 1e-3]))
     else:
@@ -218,7 +222,9 @@ def oracle(c, r):
         st0 = r["states"][0]
         rows = [list(x) for x in iso3_rows(st0["transform"])]
         scale = 10 + max(abs(x) for x in c["rc"]) + max(abs(x) for x in init["t"])
-        if mdiff(rows, rows0) > 1e-6 or max(abs(a - b) for a, b in zip(st0["transform"]["t"], init["t"])) > 1e-6 * scale:
+        # away from the pole the Euler extraction is exact to rounding; within 1e-3 of it the pitch is ill-conditioned (1e-6)
+        rt = 1e-6 if abs(abs(c["init"][4]) - math.pi / 2) < 2e-3 else 1e-11
+        if mdiff(rows, rows0) > rt or max(abs(a - b) for a, b in zip(st0["transform"]["t"], init["t"])) > rt * scale:
             yield ("rc3-reproduces", "RcParams3::from_initial does not reproduce the initial isometry: rotation off by %r, translation %r vs %r (Euler %r)" % (
                 mdiff(rows, rows0), st0["transform"]["t"], init["t"], c["init"][3:]))
         back = [list(x) for x in iso3_rows(r["back"])]
